@@ -129,7 +129,7 @@ impl ServerState {
             for key in handlers.keys() {
                 lock.entry(service_name.to_string())
                     .or_default()
-                    .insert(*key);
+                    .insert(key.clone());
             }
         }
 
@@ -156,6 +156,6 @@ impl ServerState {
         uri: &str,
     ) -> Option<Arc<dyn OpaqueMessageHandler>> {
         let lock = self.handlers.read();
-        lock.get(&crate::hash(uri)).cloned()
+        lock.get(uri).cloned()
     }
 }
